@@ -140,6 +140,15 @@ func (t *Term) Uint64() uint64 {
 }
 func (t *Term) Int64() int64 { return toSigned(t.val, t.sort.W).Int64() }
 
+// symName is the quoted SMT-LIB symbol of a variable; names starting with '@' or '.' are reserved (cvc5 rejects them even
+// when quoted), so they get a prefix.
+func symName(name string) string {
+	if strings.HasPrefix(name, "@") || strings.HasPrefix(name, ".") {
+		return "|v" + name + "|"
+	}
+	return "|" + name + "|"
+}
+
 func mk(op string, s Sort, args ...*Term) *Term {
 	return TS.intern(&Term{op: op, sort: s, args: args})
 }
@@ -593,7 +602,7 @@ func (t *Term) head() string {
 			return t.val.String()
 		}
 	case "var":
-		return "|" + t.name + "|"
+		return symName(t.name)
 	}
 	return ""
 }
@@ -656,7 +665,7 @@ func (p *Printer) emit(t *Term) {
 	case "const":
 		return
 	case "var":
-		fmt.Fprintf(p.out, "(declare-const |%s| %s)\n", t.name, t.sort)
+		fmt.Fprintf(p.out, "(declare-const %s %s)\n", symName(t.name), t.sort)
 		return
 	case "uf":
 		if p.nuf < len(TS.ufOrd) {
